@@ -115,6 +115,7 @@ def run(ctx):
     gx = prog.func('introspection.generateIntrospectionXML')
     prefix_rules(ctx, 'C16.D4', [gx], only_pathlike=False)
     children_table(ctx, gx)
+    children_once(ctx, gx)
     ctx.floor('C16.D1', 3)
     ctx.floor('C16.D2', 6)
     ctx.floor('C16.D3', 2)
@@ -273,6 +274,7 @@ def children_table(ctx, gx):
     paths = Interp(prog, exc_edges=False).run(gx)
     bad = None
     n = 0
+    extracted_nothing = False
     for exported, queried, _beneath, child in PAIRS:
         got = set()
         for p in paths:
@@ -291,7 +293,8 @@ def children_table(ctx, gx):
             for ev in p.trace:
                 if ev[0] != 'loop' or not contains(
                         ev[3], lambda x: x == exp) or contains(
-                        ev[3], lambda x: is_method_call(x, 'get')):
+                        ev[3], lambda x: is_method_call(x, 'get') or
+                        kind(x) == 'comp'):
                     continue
                 elem = _loop_elem(ev)
                 pre = ev[5]
@@ -329,14 +332,30 @@ def children_table(ctx, gx):
                 break
         n += 1
         got.discard(None) if child is not None and len(got) > 1 else None
+        if not got:
+            extracted_nothing = True
+            continue
         if got != {child} and bad is None:
             bad = {'exported': exported, 'queried': queried,
                    'expected_child': child, 'extracted': sorted(
                        got, key=str)}
+    if extracted_nothing and bad is None:
+        ctx.advisory('generateIntrospectionXML: the child-name computation '
+                     'is not a loop over the exported paths with an append; '
+                     'its value could not be extracted (only the prefix and '
+                     'de-duplication rules were applied)')
+        ctx.ob('C16.D4', gx.qualname, 'immediate-children', True,
+               'not extractable in this shape (advisory)', nontrivial=False)
+        return_none_rule(ctx, gx, paths)
+        return
     ctx.ob('C16.D4', gx.qualname, 'immediate-children', bad is None,
            'introspecting a path must list exactly the names of its '
            'immediate children among the exported paths; the extracted '
            'computation disagrees for %s' % bad, bad)
+    return_none_rule(ctx, gx, paths)
+
+
+def return_none_rule(ctx, gx, paths):
     # None exactly when neither object nor child
     okn = True
     n_none = 0
@@ -358,3 +377,52 @@ def children_table(ctx, gx):
     ctx.ob('C16.D4', gx.qualname, 'none-only-without-object', okn and
            n_none >= 1, 'introspection must fail (None) only for a path with '
            'neither an exported object nor exported descendants')
+
+
+def children_once(ctx, gx):
+    """Each immediate child is listed once however many exported objects
+    live beneath it: the list that feeds the <node name=.../> lines must be
+    de-duplicated in a recognised way."""
+    prog = ctx.prog
+    node_lists = []
+    for n in prog._iter_scope(gx.node):
+        if isinstance(n, ast.For) and isinstance(n.iter, ast.Name):
+            src = ast.unparse(ast.Module(body=n.body, type_ignores=[]))
+            if '<node name=' in src:
+                node_lists.append(n.iter.id)
+    if not node_lists:
+        ctx.ob('C16.D4', gx.qualname, 'children-listed-once', False,
+               'could not find the loop that writes the <node name=.../> '
+               'lines from a list of child names')
+        return
+    name = node_lists[0]
+    ok = False
+    how = 'no de-duplication recognised'
+    for n in prog._iter_scope(gx.node):
+        # guarded append: if x not in <name>: <name>.append(x)
+        if isinstance(n, ast.If):
+            test = ast.unparse(n.test)
+            body = ast.unparse(ast.Module(body=n.body, type_ignores=[]))
+            if ('not in %s' % name) in test and ('%s.append(' % name) in body:
+                ok, how = True, 'append guarded by "not in"'
+        if isinstance(n, ast.Assign) and len(n.targets) == 1 and \
+                isinstance(n.targets[0], ast.Name) and \
+                n.targets[0].id == name:
+            v = n.value
+            vs = ast.unparse(v)
+            if isinstance(v, ast.SetComp) or vs.startswith(('set(',
+                                                             'sorted(set(',
+                                                             'list(set(',
+                                                             'sorted({',
+                                                             'list({',
+                                                             'list(dict.fromkeys(',
+                                                             'dict.fromkeys(')):
+                ok, how = True, 'built from a set'
+            if 'groupby(sorted(' in vs:
+                ok, how = True, 'groupby over a sorted sequence'
+            elif 'groupby(' in vs:
+                how = 'itertools.groupby over an unsorted sequence only ' \
+                      'merges ADJACENT equal names'
+    ctx.ob('C16.D4', gx.qualname, 'children-listed-once', ok,
+           'every immediate child must be listed once however many exported '
+           'objects live beneath it; %s' % how)
